@@ -14,6 +14,8 @@ C14 ops of the `schema` model driver (all stateless):
   req k=<dataModel|query|mutation|deletion> s=<hex>   -> "accept" | "reject" | "fuel"   (top rule, whole input)
   vpool n=<threads> k=<empty-key messages>   -> "alive" | "dead"     (signature verification pool)
   rpool n=<parallelism> k=<null Json params>  -> "alive" | "dead"     (reader pool of an instance)
+  frame1 len=<n> max=<max_buffer_size>          -> "open grown=<0|1>" | "closed"   (first frame of an accepted QUIC connection)
+  dateq n=<parallelism> k=<requests> d=<date>  -> "alive" | "dead"     (daily-nodes request with a peer-supplied date)
   frame t=<type> b=<hex> , invite b=<hex>     -> "explored"           (byte-level exploration, no verdict)
 -/
 open Discret Discret.Proto Discret.Peg
@@ -140,6 +142,16 @@ def step (d : Adm.Defects) (line : String) : Option String :=
     match nat? rest "n", nat? rest "k" with
     | some n, some k => if n == 0 || n > 8 || k > 16 then some "bad-op" else
         some (if Adm.poolAlive d.jsonNullPanics n k then "alive" else "dead")
+    | _, _ => some "bad-op"
+  | "dateq" :: rest =>
+    match nat? rest "n", nat? rest "k", int? rest "d" with
+    | some n, some k, some t => if n == 0 || n > 8 || k > 16 then some "bad-op" else
+        some (if Adm.poolAlive (Adm.dayBoundsPanics d t) n k then "alive" else "dead")
+    | _, _, _ => some "bad-op"
+  | "frame1" :: rest =>
+    match nat? rest "len", nat? rest "max" with
+    | some len, some mx => if len > 0x48000000 || mx ≥ 0x10000000 then some "bad-op" else
+        some (if Adm.firstFrameAccepted d len mx then s!"open grown={if len ≥ 0x10000000 then 1 else 0}" else "closed")
     | _, _ => some "bad-op"
   | "frame" :: rest =>
     match kv' rest "t", (kv' rest "b").bind fun b => hexBytes b.toList with
